@@ -26,7 +26,23 @@ fn main() {
         let kind = t[0];
         let buf = unhex(t[2]);
         let c: usize = t[3].parse().unwrap();
-        let mut pb = ParseBuffer::new(buf);
+        // optional tokens 4, 5: bytes before / after the window in the underlying storage; the
+        // parser then runs on a restricted view holding exactly `buf`
+        let mut pb = if t.len() >= 6 {
+            use parsley_rust::pcore::transforms::{BufferTransformT, RestrictView};
+            let pre = unhex(t[4]);
+            let post = unhex(t[5]);
+            let mut all = pre.clone();
+            all.extend_from_slice(&buf);
+            all.extend_from_slice(&post);
+            let base = ParseBuffer::new(all);
+            match RestrictView::new(pre.len(), buf.len()).transform(&base) {
+                Ok(v) => v,
+                Err(_) => return "badcase".to_string(),
+            }
+        } else {
+            ParseBuffer::new(buf)
+        };
         if pb.set_cursor(c).is_err() {
             return "badcase".to_string()
         }
